@@ -34,6 +34,12 @@ try:
 except ImportError:
     HAS_PYCMSGEN = False
 
+try:
+    import pycryptosat
+    HAS_PYCRYPTOSAT = True
+except ImportError:
+    HAS_PYCRYPTOSAT = False
+
 
 class UnigenError(ToolError):
     """An error raised when Unigen fails."""
@@ -118,6 +124,16 @@ def call_unigen_python(input_file: Path, sample_count: int) -> str:
     if not sampling_set:
         sampling_set = list(range(1, num_vars + 1))
     
+    # pyunigen terminates the whole interpreter (exit status 255) when the
+    # formula is unsatisfiable, so rule that out first.
+    if HAS_PYCRYPTOSAT:
+        sat_solver = pycryptosat.Solver()
+        for clause in clauses:
+            sat_solver.add_clause(clause)
+        sat, _ = sat_solver.solve()
+        if not sat:
+            return ""
+
     sampler = pyunigen.Sampler()
     for clause in clauses:
         sampler.add_clause(clause)
